@@ -294,7 +294,12 @@ def _shard(item):
         part["extra"]["interpreters_found"] = sorted(pl.found)
         if kind == "corpus":
             for name, src in arg:
+                before = sum(part["discarded"].values())
                 v = check_program(part, pl, src, SENSITIVE, switches, "corpus program " + name)
+                if sum(part["discarded"].values()) != before:
+                    if name.startswith("vs_"):
+                        raise env.HarnessError("version-sensitive pool program %s is not valid / raises on some runtime" % name)
+                    part["extra"].setdefault("corpus_programs_outside_the_domain", []).append(name)
                 if v and len(part["violations"]) < 3:
                     part["violations"].append(v)
         else:
